@@ -35,10 +35,12 @@ int main(void) {
             base64_init(&x);
             for (tok = strtok_r(arg, ",", &save); tok; tok = strtok_r(NULL, ",", &save)) {
                 int n; unsigned char *src = unhex(tok, &n);
-                m = 0;  /* an empty update leaves *dstlen untouched: treat as "nothing written" */
+                m = 0x5a5a5a;  /* poison: the routine's contract is to SET *dstlen to the number of bytes written, also for an empty piece */
                 base64_encode_update(&x, dst + off, &m, src, n);
+                if (m < 0 || m > 4 * (n / 3 + 2)) { off = -1; free(src); break; }
                 off += m; free(src);
             }
+            if (off < 0) { base64_cleanup(&x); printf("S !dstlen-not-set\n"); free(dst); continue; }
             m = 0; base64_encode_final(&x, dst + off, &m); off += m;
             base64_cleanup(&x);
             printf("S "); puthex(dst, off); printf("\n");
